@@ -1,21 +1,25 @@
 import Starcal.RaceA
-import Starcal.Gen.LockSeq
+import Starcal.Gen.LockSkel
 /-! # C17 — thread-safe set: no schedule of concurrent operations can block forever
 
 Model of Go's writer-preferring `sync.RWMutex`: a reader arriving after a writer has announced
 itself waits; a writer waits for the readers that hold the lock. A goroutine that re-locks what it
 holds blocks on itself exactly as the real mutex does. The lock-event sequences are the ones
-recorded from the implementation (`Gen.lockSeqs`). -/
+recorded from the running implementation through the verif hook (`Gen.lockSkels`; the operations
+are those of the `Set` interface by reflection, no reading of the source is involved). -/
 namespace Starcal.Props
 open Starcal.Lock Starcal.Gen
 
 /-- the lock skeletons of the operations (accesses are always-enabled steps that change nothing a
     lock step depends on, so they are irrelevant to blocking and are left out here) -/
-def skeletons : List (List Act) := lockSeqs.map (fun e => skeleton e.2.2)
+def skeletons : List (List Act) := lockSkels.map (fun e => skeleton e.2.2)
 
 /-- no operation re-acquires a lock it already holds, two-set operations acquire in the fixed
     order, releases match, nothing is held at the end — on the sequences recorded from the code -/
-theorem C17_ops_ordered : lockSeqs.all (fun e => disc [] (skeleton e.2.2)) = true := by decide
+theorem C17_ops_ordered : lockSkels.all (fun e => disc [] (skeleton e.2.2)) = true := by decide
+
+/-- all 18 operations of the set interface were recorded -/
+theorem C17_eighteen_operations : (lockSkels.map (·.1)).eraseDups.length = 18 := by decide
 
 theorem skeletons_disc : ∀ c ∈ skeletons, disc [] c = true := by
   intro c hc
